@@ -23,7 +23,10 @@ RULE = ("cases: (a) ser.todict — a generated dataclass tree over the C05 gramm
         "argument deep-equal to its copy after each call, both results equal, no aliasing (real code + oracle only). Fields may carry "
         "to_dict=False and an encoding_fn at the same time, and hooks sit on fields of every type of the grammar (dataclass, "
         "Optional/List/Dict of dataclasses, containers: a constant hook and a value-dependent one written without simple_parsing), not "
-        "only on primitive-typed fields. Non-trivial = class with >= 2 fields or nested/container field and at "
+        "only on primitive-typed fields; an encoding_fn that returns None, decoder-only hooks on Optional fields (a raw None reaches "
+        "them), every hook wrapped in a per-field call recorder (exactly one call per written / present field). Enums include "
+        "str-/int-mixed ones: the primitives clause tests exact types (type(node) in {dict, list, str, int, float, bool, NoneType}). "
+        "Non-trivial = class with >= 2 fields or nested/container field and at "
         "least one marked field or container; distinct by canonical JSON.")
 ASSUMPTIONS = [
     "json.dumps / yaml.safe_dump are the acceptance tests named by the property",
@@ -31,7 +34,7 @@ ASSUMPTIONS = [
 ]
 TRUSTED = ["stdlib json, copy; PyYAML"]
 EXHAUSTIVE = {"quick": False, "thorough": False}
-THOROUGH_ROUNDS = 5   # thorough tier: this many generator passes with derived PRNG states (vcheck)
+THOROUGH_ROUNDS = 8   # thorough tier: this many generator passes with derived PRNG states (vcheck)
 PRIMS = (dict, list, str, int, float, bool, type(None))
 
 # ------------------------------------------------------------------------------------------------
@@ -44,10 +47,10 @@ def hook_plain(v):
     import enum
     import pathlib
 
+    if isinstance(v, enum.Enum):      # first: members of a mixed-in Enum are str / int instances too
+        return v.name
     if v is None or isinstance(v, (bool, int, float, str)):
         return v
-    if isinstance(v, enum.Enum):
-        return v.name
     if isinstance(v, pathlib.PurePath):
         return str(v)
     if isinstance(v, (list, tuple, set, frozenset)):
@@ -62,7 +65,59 @@ def hook_plain(v):
 HOOKS[13] = lambda v: {"w": hook_plain(v)}
 HOOKS[24] = lambda r: copy.deepcopy(r["w"])
 B.DEC_FOR_ENC[13] = 24
-NODE_ENC_HOOKS = [12, 13]
+NODE_ENC_HOOKS = [12, 13, 14]
+
+
+class RecBuilt(Built):
+    """Every field gets its own recording wrapper around the hook, so calls can be counted per (class, field, kind)."""
+
+    def __init__(self):
+        super().__init__()
+        self.calls: dict[str, int] = {}
+
+    def hook(self, cls_name, field_name, kind, hid):
+        fn = HOOKS[hid]
+        key = f"{cls_name}.{field_name}.{kind}"
+
+        def recording(v, _fn=fn, _key=key):
+            self.calls[_key] = self.calls.get(_key, 0) + 1
+            return _fn(v)
+
+        recording.hook_id = hid
+        return recording
+
+
+def expected_calls(T, V, kind, acc=None):
+    """How often each field's hook must run for ONE to_dict (kind='enc') / from_dict (kind='dec') of instance V: once per
+    field that is written (not to_dict=False) and carries the hook — and nothing below a hooked field is visited."""
+    acc = acc if acc is not None else {}
+    k, t = T["k"], V["t"]
+    if k == "opt":
+        if t != "none":
+            expected_calls(T["inner"], V, kind, acc)
+    elif k in ("list", "vtuple", "set") and t in ("list", "tuple", "set"):
+        for x in V["v"]:
+            expected_calls(T["item"], x, kind, acc)
+    elif k == "tuple" and t == "tuple":
+        for ti, x in zip(T["items"], V["v"]):
+            expected_calls(ti, x, kind, acc)
+    elif k == "dict" and t == "dict":
+        for _, x in V["v"]:
+            expected_calls(T["val"], x, kind, acc)
+    elif k == "dc" and t == "inst":
+        fm = {f["name"]: f for f in T["fields"]}
+        for name, x in V["v"]:
+            f = fm[name]
+            if not f.get("to_dict", True):
+                continue
+            if f.get(kind) is not None:
+                key = f"{T['cls']}.{name}.{kind}"
+                acc[key] = acc.get(key, 0) + 1
+            elif kind == "dec" and f.get("enc") is not None:
+                continue        # what the encoder wrote is decoded by the annotation: not this instance's subtree
+            else:
+                expected_calls(f["ty"], x, kind, acc)
+    return acc
 
 
 def add_node_hooks(rng, T, p=0.3):
@@ -82,8 +137,10 @@ def add_node_hooks(rng, T, p=0.3):
             holds_dc = has_kind(f["ty"], lambda t: t["k"] == "dc")
             if not prim and f.get("enc") is None and f.get("dec") is None and rng.random() < (0.5 if holds_dc else p):
                 has_set = has_kind(f["ty"], lambda t: t["k"] == "set")
-                f["enc"] = 12 if has_set else rng.choice(NODE_ENC_HOOKS)
+                f["enc"] = rng.choice([12, 14]) if has_set else rng.choice(NODE_ENC_HOOKS)
                 f["dec"] = B.DEC_FOR_ENC.get(f["enc"], 22) if rng.random() < 0.8 else None
+            elif f.get("enc") is None and f.get("dec") is None and f["ty"]["k"] in ("opt", "union") and rng.random() < 0.4:
+                f["dec"] = rng.choice([22, 25])   # decoder only: an Optional field holding None hands a raw None to it
             fs.append(f)
         T["fields"] = fs
     return T
@@ -343,7 +400,7 @@ def impl(case):
                 return json.loads(json.dumps(_impl_typed(c, b)))
             finally:
                 b.close()
-    b = Built()
+    b = RecBuilt()
     obs = _impl(case, b)
     return json.loads(json.dumps(obs).replace(b.suffix, ""))
 
@@ -357,8 +414,10 @@ def _impl(case, b):
     x = b.val(c["x"])
     if op == "ser.todict":
         before = cv(x, norm=True)
+        b.calls.clear()
         o, d = _run(lambda: S.to_dict(x))
-        obs = {"out": dict(o, v=cv(d)) if o["o"] == "ok" else o, "v_iter": cv(x, set_iter=True, meta=True)}
+        obs = {"out": dict(o, v=cv(d)) if o["o"] == "ok" else o, "v_iter": cv(x, set_iter=True, meta=True),
+               "enc_calls": dict(b.calls)}
         if o["o"] != "ok":
             return obs
         obs["nonprim"] = nonprim_nodes(d)[:20]
@@ -394,8 +453,10 @@ def _impl(case, b):
             raw_spec = dict(raw_spec, v=raw_spec["v"] + [[{"t": "str", "v": "zz_extra"}, {"t": "list", "v": [B.V_int(1)]}]])
         raw = b.val(raw_spec)
         snap = cv(raw)
+        b.calls.clear()
         o, r = _run(lambda: S.from_dict(cls, raw))
-        obs = {"out": dict(o, v=cv(r)) if o["o"] == "ok" else o, "raw_iter": cv(raw, set_iter=True), "raw_spec": raw_spec}
+        obs = {"out": dict(o, v=cv(r)) if o["o"] == "ok" else o, "raw_iter": cv(raw, set_iter=True), "raw_spec": raw_spec,
+               "dec_calls": {k: v for k, v in b.calls.items() if k.endswith(".dec")}}
         obs["raw_unchanged"] = cv(raw) == snap
         if o["o"] == "ok":
             raw_ids = {id(n): p for p, n in mutable_nodes(raw)}
@@ -473,6 +534,10 @@ def oracle(case, obs):
             fails.append({"clause": "content", "detail": f"to_dict output differs from: fields marked to_dict=False omitted, encoding_fn on its "
                                                          f"field only, primitives elsewhere; expected {B.canon_short(exp)} got {B.canon_short(got)}",
                           "exp": exp, "got": got})
+        exp_calls = expected_calls(T, c["x"], "enc")
+        if obs.get("enc_calls") != exp_calls:
+            fails.append({"clause": "hook-called-once", "detail": f"encoding_fn calls during one to_dict: {obs.get('enc_calls')}, expected "
+                                                                  f"{exp_calls} (once per written field that carries one)"})
         if not obs["same_again"] or (obs["rev_equal"] and not obs["rev_same"]):
             fails.append({"clause": "functional", "detail": f"equal instances gave different output: again={obs['same_again']} "
                                                             f"reversed-build equal={obs['rev_equal']} same output={obs['rev_same']}",
@@ -485,6 +550,10 @@ def oracle(case, obs):
                                                                 f"after mutating the result={obs.get('probe_out')})"})
         if obs.get("alias"):
             fails.append({"clause": "from_dict-no-aliasing", "detail": f"result shares {obs['alias'][:3]} with the argument"})
+        exp_calls = expected_calls(T, c["x"], "dec")
+        if obs.get("dec_calls") != exp_calls:
+            fails.append({"clause": "decoding-hook", "detail": f"decoding_fn calls during one from_dict: {obs.get('dec_calls')}, expected "
+                                                               f"{exp_calls} (once per present field that carries one, whatever the raw value)"})
         for h in obs.get("hooks", []):
             if h["exp"] != h["got"]:
                 fails.append({"clause": "decoding-hook", "detail": f"field {h['name']}: decoding_fn result {h['exp']} but got {h['got']}"})
